@@ -619,3 +619,154 @@ def add_anchors(model, rng, n_groups=2, n_marks=3, n_ligs=1, mkmk=0.5, multi_mar
             layer["anchors"] = out
     model["lib"]["public.openTypeCategories"] = cats
     return model
+
+
+# ------------------------------------------------------------------------------------------ naming (C18)
+RIBBI = {"regular": "Regular", "italic": "Italic", "bold": "Bold", "bold italic": "Bold Italic"}
+
+
+def expected_names(N):
+    """ids 1-6, 16, 17 from the UFO naming fields by ufo2ft's documented fallback rules (fontInfoData.py):
+    styleMapStyleName falls back to the style name if that is one of regular/italic/bold/bold italic, else to
+    'regular' with the style name appended to the style-map family name; preferred (typographic) names fall back to
+    familyName/styleName and are dropped when equal to ids 1/2; version 'Version M.mmm'; PostScript name
+    'Family-Style' without spaces and ()[]{}<>/% ; unique id 'M.mmm;VEND;psname'."""
+    fam1 = N.get("styleMapFamilyName")
+    sub2 = RIBBI.get(N["styleMapStyleName"]) if "styleMapStyleName" in N else None
+    t16 = N.get("openTypeNamePreferredFamilyName", N.get("familyName"))
+    t17 = N.get("openTypeNamePreferredSubfamilyName", N.get("styleName"))
+    suffix = None
+    if sub2 is None:
+        fb = t17 if t17 is not None else "Regular"
+        if fb.lower() in RIBBI:
+            sub2 = fb
+        else:
+            sub2, suffix = "Regular", (fb or None)
+    if fam1 is None:
+        fam1 = t16 if t16 is not None else "New Font"
+        if suffix:
+            fam1 += " " + suffix
+    if t16 is None:
+        t16 = fam1
+    if t17 is None:
+        t17 = sub2
+    ver = N.get("openTypeNameVersion") or "Version %d.%03d" % (N.get("versionMajor", 0), N.get("versionMinor", 0))
+    full = " ".join([t16] + t17.split())
+    ps = N.get("postscriptFontName")
+    if ps is None:
+        ps = "".join(c for c in (t16.replace(" ", "") + ("-" if t17 else "") + "".join(t17.split())) if 33 <= ord(c) < 127 and c not in "[](){}<>/%")
+    uid = N.get("openTypeNameUniqueID") or "%s;%s;%s" % (ver.replace("Version ", ""), N.get("openTypeOS2VendorID", "NONE"), ps)
+    out = {"1": fam1, "2": sub2, "3": uid, "4": full, "5": ver, "6": ps, "16": t16, "17": t17}
+    if fam1 == t16 and sub2 == t17:
+        out["16"] = out["17"] = None
+    return out
+
+
+def naming(model, rng, fea=0.5, collide=0.6, twin=False):
+    """A naming configuration: which fontinfo naming fields exist, axis names, instance names / PostScript names that
+    collide with family, style, axis and each other's strings, names supplied through feature code."""
+    fam = rng.choice(["Verif Sans", "Foo", "Regular", "Ab Cd Display", "Bold"])
+    style = rng.choice(["Regular", "Bold", "Italic", "Bold Italic", "Light", "Condensed Bold", "Black Italic", "regular", "Regular", "Medium"])
+    N = {}
+    if rng.random() < 0.85:
+        N["familyName"] = fam
+    if rng.random() < 0.85:
+        N["styleName"] = style
+    if rng.random() < 0.3:
+        N["styleMapFamilyName"] = rng.choice([fam, fam + " " + style, "Legacy Fam"])
+    if rng.random() < 0.3:
+        N["styleMapStyleName"] = rng.choice(list(RIBBI))
+    if rng.random() < 0.25:
+        N["openTypeNamePreferredFamilyName"] = rng.choice([fam, "Typo Family"])
+    if rng.random() < 0.25:
+        N["openTypeNamePreferredSubfamilyName"] = rng.choice([style, "Typo Sub", "Regular"])
+    if rng.random() < 0.7:
+        N["versionMajor"] = rng.randint(0, 9)
+        N["versionMinor"] = rng.choice([0, 1, 5, 12, 100, 999])
+    if rng.random() < 0.2:
+        N["openTypeNameVersion"] = rng.choice(["Version 2.5", "Version 1.000;beta", "3.1"])
+    if rng.random() < 0.2:
+        N["openTypeNameUniqueID"] = "uid:" + fam
+    if rng.random() < 0.3:
+        N["postscriptFontName"] = rng.choice(["Custom-PSName", fam.replace(" ", "") + "-X"])
+    if rng.random() < 0.3:
+        N["openTypeOS2VendorID"] = "VRFY"
+    if twin:
+        # one string under several reserved ids (family = style = default instance name)
+        t = rng.choice(["Regular", "Bold", "Italic"])
+        N["familyName"] = N["styleName"] = t
+        for k in ("styleMapFamilyName", "styleMapStyleName", "openTypeNamePreferredFamilyName", "openTypeNamePreferredSubfamilyName"):
+            N.pop(k, None)
+    model["names"] = N
+    exp = expected_names(N)
+    model["expect_names"] = exp
+    axes = model["axes"]
+    # axis names, some colliding with naming strings (kept distinct among axes)
+    used = set()
+    for a in axes:
+        cand = [a["name"]]
+        if rng.random() < collide:
+            cand = [exp["2"], exp["1"], "Regular", "My " + a["tag"], a["name"]]
+        for c in rng.sample(cand, len(cand)):
+            if c not in used:
+                a["name"] = c
+                break
+        used.add(a["name"])
+    # named instances
+    if axes:
+        dflt = {a["tag"]: a["default"] for a in axes}
+        pool = [exp["2"], exp["17"] or exp["2"], exp["1"], exp["4"], axes[0]["name"], "Inst A", "Inst A", "Inst B", exp["6"], "Regular", "Bold"]
+        insts = []
+        for k in range(rng.randint(1, 5)):
+            loc = dict(dflt)
+            if (k and rng.random() < 0.8) or (rng.random() < 0.3 and not (twin and k == 0)):
+                for a in axes:
+                    loc[a["tag"]] = rng.choice([a["min"], a["max"], a["default"], rng.randint(int(a["min"]), int(a["max"]))])
+            name = rng.choice(pool) if rng.random() < collide else f"Inst {k}"
+            if twin and k == 0:
+                name = N["styleName"]
+            ps = None
+            insts.append({"name": name, "psname": ps, "user_loc": loc})
+        if rng.random() < 0.5:
+            for i in insts:
+                if rng.random() < 0.7:
+                    i["psname"] = rng.choice([exp["6"], "PS-" + i["name"].replace(" ", ""), insts[0]["name"].replace(" ", "") + "PS", exp["1"].replace(" ", "")])
+        model["instances"] = insts
+    # names through feature code
+    model["fea_names"] = []
+    if rng.random() < fea:
+        L = ["languagesystem DFLT dflt;"]
+        letters = [g["name"] for g in model["glyphs"] if g["export"] and len(g["name"]) == 1]
+        kind = rng.random()
+        if len(letters) >= 2 and kind < 0.7:
+            a, b = letters[0], letters[1]
+            s1 = rng.choice(["Alt forms", exp["2"], "Inst A", axes[0]["name"] if axes else "Alt"])
+            L += ["feature ss01 {", "  featureNames {", f'    name "{s1}";', "  };", f"  sub {a} by {b};", "} ss01;"]
+            model["fea_names"].append({"where": "ss01 featureNames", "ref": "ss01 UI name", "string": s1})
+            # character variants: parameter labels are addressed as first id + i, strings repeat across features
+            labels = ["Plain", "Slashed", "Barred", "Dotted", s1, "Plain"]
+            for cv in range(1, 1 + rng.choice([0, 1, 2, 3])):
+                tag = f"cv{cv:02d}"
+                s2 = rng.choice(["Character variant", s1, "Zero forms"])
+                params = [rng.choice(labels) for _ in range(rng.randint(0, 3))]
+                L += [f"feature {tag} {{", "  cvParameters {", f'    FeatUILabelNameID {{ name "{s2}"; }};']
+                if rng.random() < 0.4:
+                    tip = rng.choice(["A tooltip", s2])
+                    L.append(f'    FeatUITooltipTextNameID {{ name "{tip}"; }};')
+                    model["fea_names"].append({"where": f"{tag} tooltip", "ref": f"{tag} tooltip", "string": tip})
+                for pi, ps in enumerate(params):
+                    L.append(f'    ParamUILabelNameID {{ name "{ps}"; }};')
+                    model["fea_names"].append({"where": f"{tag} parameter {pi}", "ref": f"{tag} parameter {pi}", "string": ps})
+                L += ["  };", f"  sub {b} by {a};", f"}} {tag};"]
+                model["fea_names"].append({"where": f"{tag} label", "ref": f"{tag} label", "string": s2})
+            if rng.random() < 0.3:
+                s5 = rng.choice(["Second set", s1])
+                L += ["feature ss02 {", "  featureNames {", f'    name "{s5}";', "  };", f"  sub {b} by {a};", "} ss02;"]
+                model["fea_names"].append({"where": "ss02 featureNames", "ref": "ss02 UI name", "string": s5})
+        if rng.random() < 0.5:
+            s4 = rng.choice(["A designer", exp["1"]])
+            L += ["table name {", f'  nameid 9 "{s4}";', f'  nameid 256 "Custom string";', "} name;"]
+            model["fea_names"].append({"where": "name id 9", "id": 9, "string": s4})
+            model["fea_names"].append({"where": "a font-specific name", "id": 256, "string": "Custom string"})
+        model["features_fea"] = "\n".join(L) + "\n"
+    return model
